@@ -132,7 +132,7 @@ Definition metadata (tnow : N) (c : client_state) (s : cstore) : Prop :=
                     sget (KSigner (eh_height hd)) s = Some (VAddr sg) /\ sget KPending s = Some (VVals vs)
   | ClEth hd _ _ _ =>
       sget (KHIdx (eh_hash hd) (snd (eh_height hd))) s = Some (VHeader hd) /\
-      sget (KRootMain (eh_root hd) (snd (eh_height hd))) s = Some (VRefHIdx (eh_hash hd) (snd (eh_height hd)))
+      sget (KRootMain (hash32 (eh_root hd)) (snd (eh_height hd))) s = Some (VRefHIdx (eh_hash hd) (snd (eh_height hd)))
   | ClTss _ _ => True
   end.
 
@@ -152,7 +152,7 @@ Definition fresh_store (tnow : N) (c : client_state) (cns : cons_state) : cstore
        (KClient, VClient c)]
   | ClEth hd _ _ _ =>
       [(KCons (eh_height hd), VCons cns);
-       (KRootMain (eh_root hd) (snd (eh_height hd)), VRefHIdx (eh_hash hd) (snd (eh_height hd)));
+       (KRootMain (hash32 (eh_root hd)) (snd (eh_height hd)), VRefHIdx (eh_hash hd) (snd (eh_height hd)));
        (KHIdx (eh_hash hd) (snd (eh_height hd)), VHeader hd);
        (KClient, VClient c)]
   | ClTss _ _ => [(KClient, VClient c)]
@@ -197,11 +197,11 @@ Definition wf_state (st : state) : Prop := forall n, has_client st n = false -> 
 
 Lemma create_succeeds cf st p :
   valid_name (p_name p) = true -> p_validate p = true -> has_client st (p_name p) = false ->
-  store_of st (p_name p) = [] -> well_typed p -> installable (p_client p) ->
+  store_of st (p_name p) = [] -> well_typed p -> roots_agree cf p = true -> installable (p_client p) ->
   exec cf st (Create p) = Ok (with_store st (p_name p) (fresh_store (now st) (p_client p) (p_cons p))).
 Proof.
-  intros Hn Hv Hc He Ht Hi. unfold exec. rewrite Hn, Hv, Hc. cbn.
-  unfold types_agree. rewrite Ht, ctype_eqb_refl, orb_true_r. cbn.
+  intros Hn Hv Hc He Ht Hr Hi. unfold exec. rewrite Hn, Hv, Hc. cbn.
+  unfold types_agree. rewrite Ht, ctype_eqb_refl, orb_true_r. cbn. rewrite Hr. cbn.
   rewrite He, create_client_fresh by assumption. reflexivity.
 Qed.
 
@@ -246,7 +246,7 @@ Definition installed_gate (tnow t : N) (fx prf : bytes) (c : client_state) (cns 
   match c with
   | ClTm _ _ _ delay _ => if (add64 tnow delay <? tnow) || (t <? add64 tnow delay) then 5%nat else root_gate fx cns
   | ClBsc _ _ vals _ _ => 5%nat                                      (* at least one more block is required *)
-  | ClEth _ bd _ _ => if 0 <? bd then 5%nat else root_gate fx cns
+  | ClEth _ bd _ _ => if 0 <? bd then 5%nat else root_gate_evm fx cns
   | ClTss addr _ => if bytes_eqb prf addr then 0%nat else 7%nat
   end.
 
@@ -316,6 +316,7 @@ Proof.
   destruct (has_client st (p_name p)) eqn:Hc; [discriminate|].
   unfold types_agree. rewrite Hf. cbn.
   destruct (ctype_eqb_spec (cs_type (p_cons p)) (type_of (p_client p))) as [T|]; [|discriminate]. cbn.
+  destruct (roots_agree cf p); [|discriminate]. cbn.
   rewrite (W _ Hc).
   destruct (create_client (now st) (p_client p) (p_cons p) []) eqn:E; cbn; try discriminate.
   intro H; inversion H; subst.
@@ -345,6 +346,7 @@ Proof.
   destruct (has_client st (p_name p)) eqn:Hc; [|discriminate]. cbn.
   unfold types_agree. rewrite F3. cbn.
   destruct (ctype_eqb_spec (cs_type (p_cons p)) (type_of (p_client p))) as [T|]; [|discriminate]. cbn.
+  destruct (roots_agree cf p); [|discriminate]. cbn.
   destruct (toggle_client cf (now st) (p_client p) (p_cons p) (store_of st (p_name p))) eqn:E; cbn; try discriminate.
   intro H; inversion H; subst. clear H.
   unfold toggle_client in E.
@@ -360,12 +362,12 @@ Lemma toggle_succeeds cf st p old :
   f_toggle_new cf = true -> f_toggle_clear cf = true ->
   valid_name (p_name p) = true -> p_validate p = true ->
   sget KClient (store_of st (p_name p)) = Some (VClient old) -> type_of old <> type_of (p_client p) ->
-  well_typed p -> installable (p_client p) ->
+  well_typed p -> roots_agree cf p = true -> installable (p_client p) ->
   exec cf st (Toggle p) = Ok (with_store st (p_name p) (fresh_store (now st) (p_client p) (p_cons p))).
 Proof.
-  intros F1 F2 Hn Hv Ho Nt T I. unfold exec. rewrite Hn, Hv. cbn.
+  intros F1 F2 Hn Hv Ho Nt T Hr I. unfold exec. rewrite Hn, Hv. cbn.
   unfold has_client. rewrite Ho. cbn.
-  unfold types_agree. rewrite T, ctype_eqb_refl, orb_true_r. cbn.
+  unfold types_agree. rewrite T, ctype_eqb_refl, orb_true_r. cbn. rewrite Hr. cbn.
   assert (Ht : ctype_eqb (type_of old) (type_of (p_client p)) = false)
     by (destruct (ctype_eqb_spec (type_of old) (type_of (p_client p))); [contradiction | reflexivity]).
   rewrite (toggle_client_cleared cf _ _ _ _ old F1 F2 Ho Ht), create_client_fresh by assumption. reflexivity.
@@ -409,6 +411,7 @@ Proof.
   destruct (p_validate p) eqn:Hv; [|discriminate]. cbn.
   unfold types_agree. rewrite F3. cbn.
   destruct (ctype_eqb_spec (cs_type (p_cons p)) (type_of (p_client p))) as [T|]; [|discriminate]. cbn.
+  destruct (roots_agree cf p); [|discriminate]. cbn.
   destruct (upgrade_client cf (now st) (p_client p) (p_cons p) (store_of st (p_name p))) as [s'| |] eqn:E; cbn; try discriminate.
   intro H; inversion H; subst; clear H.
   apply upgrade_client_ok in E; try assumption. destruct E as (old & Ho & Te & I).
@@ -462,7 +465,7 @@ Proof.
   unfold keeper_update.
   destruct (sget KClient s) as [[c| | | | | | |]|]; try discriminate.
   destruct (negb (Nat.eqb (status tnow c s) 0)); [discriminate|].
-  destruct (check_header_and_update tnow c h s) as [[[c' cns] s1]| |]; cbn; try discriminate.
+  destruct (check_header_and_update cf tnow c h s) as [[[c' cns] s1]| |]; cbn; try discriminate.
   destruct (hdr_height cf h) as [hh|]; [|discriminate].
   intro H; inversion H; subst. exists c'. destruct cns; sg; reflexivity.
 Qed.
@@ -474,16 +477,16 @@ Proof.
   destruct o as [p|p|p|addr chains wfb|name h signer vb|dt]; unfold exec.
   - destruct (negb (valid_name (p_name p) && p_validate p)); [discriminate|].
     destruct (has_client st (p_name p)); [discriminate|].
-    destruct (negb (types_agree cf p)); [discriminate|].
+    destruct (negb (types_agree cf p)); [discriminate|]. destruct (negb (roots_agree cf p)); [discriminate|].
     destruct (create_client _ _ _ _) as [s'| |] eqn:E; cbn; try discriminate.
     intro H; inversion H. left. exists (p_name p), s'. split; [reflexivity|]. rewrite (create_client_has _ _ _ _ _ E). discriminate.
   - destruct (negb (valid_name (p_name p) && p_validate p)); [discriminate|].
-    destruct (negb (types_agree cf p)); [discriminate|].
+    destruct (negb (types_agree cf p)); [discriminate|]. destruct (negb (roots_agree cf p)); [discriminate|].
     destruct (upgrade_client _ _ _ _ _) as [s'| |] eqn:E; cbn; try discriminate.
     intro H; inversion H. left. exists (p_name p), s'. split; [reflexivity|]. rewrite (upgrade_client_has _ _ _ _ _ _ E). discriminate.
   - destruct (negb (valid_name (p_name p) && p_validate p)); [discriminate|].
     destruct (negb (has_client st (p_name p))); [discriminate|].
-    destruct (negb (types_agree cf p)); [discriminate|].
+    destruct (negb (types_agree cf p)); [discriminate|]. destruct (negb (roots_agree cf p)); [discriminate|].
     destruct (toggle_client _ _ _ _ _) as [s'| |] eqn:E; cbn; try discriminate.
     intro H; inversion H. left. exists (p_name p), s'. split; [reflexivity|]. rewrite (toggle_client_has _ _ _ _ _ _ E). discriminate.
   - destruct (negb (wfb && forallb valid_name chains)); [discriminate|]. intro H; inversion H. right. reflexivity.
@@ -527,13 +530,13 @@ Lemma exec_frame cf st o st' :
   end.
 Proof.
   destruct o as [p|p|p|addr chains wfb|name h signer vb|dt]; unfold exec.
-  - destruct (negb _); [discriminate|]. destruct (has_client _ _); [discriminate|]. destruct (negb _); [discriminate|].
+  - destruct (negb _); [discriminate|]. destruct (has_client _ _); [discriminate|]. destruct (negb _); [discriminate|]. destruct (negb _); [discriminate|].
     destruct (create_client _ _ _ _); cbn; try discriminate. intro H; inversion H.
     repeat split. intros m N. apply store_of_with_other; exact N.
-  - destruct (negb _); [discriminate|]. destruct (negb _); [discriminate|].
+  - destruct (negb _); [discriminate|]. destruct (negb _); [discriminate|]. destruct (negb _); [discriminate|].
     destruct (upgrade_client _ _ _ _ _); cbn; try discriminate. intro H; inversion H.
     repeat split. intros m N. apply store_of_with_other; exact N.
-  - destruct (negb _); [discriminate|]. destruct (negb _); [discriminate|]. destruct (negb _); [discriminate|].
+  - destruct (negb _); [discriminate|]. destruct (negb _); [discriminate|]. destruct (negb _); [discriminate|]. destruct (negb _); [discriminate|].
     destruct (toggle_client _ _ _ _ _); cbn; try discriminate. intro H; inversion H.
     repeat split. intros m N. apply store_of_with_other; exact N.
   - destruct (negb _); [discriminate|]. intro H; inversion H. split; reflexivity.
@@ -651,9 +654,10 @@ Definition header_valid_for (tnow : N) (c : client_state) (h : hdr) (s : cstore)
                          ((snd (eh_height hd) <? lenN (bdistinct vals) / 2 + 1)
                           || (snd (eh_height hd) - (lenN (bdistinct vals) / 2 + 1) <? snd (fst ha)))) (signers s) = false /\
       (snd (eh_height hd) mod epoch = 0 -> exists vs, eh_vals hd = Some vs)
-  | ClEth cur _ _ _, HEvm ETH hd hv =>
+  | ClEth cur _ trusting _, HEvm ETH hd hv =>
       hv = true /\ eh_hash cur = eh_parent hd /\ snd (eh_height cur) = sub64 (snd (eh_height hd)) 1 /\
-      sget (KHIdx (eh_hash cur) (snd (eh_height cur))) s = Some (VHeader cur) /\ eh_time cur < eh_time hd
+      sget (KHIdx (eh_hash cur) (snd (eh_height cur))) s = Some (VHeader cur) /\ eh_time cur < eh_time hd /\
+      fst (eh_height hd) = fst (eh_height cur) /\ evm_expired (eh_time hd) trusting tnow = false
   | _, _ => False
   end.
 
@@ -666,7 +670,7 @@ Definition store_clean (c : client_state) (s : cstore) : Prop :=
   match c with
   | ClTm _ _ _ _ _ => iter_ok s
   | ClEth _ _ _ _ =>
-      forall h cs, get_cons ETH h s = Some cs -> exists hash n, sget (KRootMain (cs_root cs) (snd h)) s = Some (VRefHIdx hash n)
+      forall h cs, get_cons ETH h s = Some cs -> exists hash n, sget (KRootMain (hash32 (cs_root cs)) (snd h)) s = Some (VRefHIdx hash n)
   | _ => True
   end.
 
@@ -705,7 +709,7 @@ Qed.
 
 Lemma eth_prune_ok trusting tnow s :
   all_cons ETH s ->
-  (forall h cs, get_cons ETH h s = Some cs -> exists hash n, sget (KRootMain (cs_root cs) (snd h)) s = Some (VRefHIdx hash n)) ->
+  (forall h cs, get_cons ETH h s = Some cs -> exists hash n, sget (KRootMain (hash32 (cs_root cs)) (snd h)) s = Some (VRefHIdx hash n)) ->
   exists s', eth_prune trusting tnow s = Ok s'.
 Proof.
   intros A R. unfold eth_prune. destruct (prune_target_ok ETH trusting tnow s A) as [p E]. rewrite E. cbn.
@@ -716,9 +720,9 @@ Proof.
   rewrite G. destruct (R _ _ G) as (hash & n & ->). eauto.
 Qed.
 
-Lemma check_header_valid tnow c h s :
+Lemma check_header_valid cf tnow c h s :
   status tnow c s = 0%nat -> store_clean c s -> header_valid_for tnow c h s ->
-  exists c' cns s1, check_header_and_update tnow c h s = Ok (c', cns, s1) /\
+  exists c' cns s1, check_header_and_update cf tnow c h s = Ok (c', cns, s1) /\
     match c, h with
     | ClTss _ _, HTss addr rest => c' = ClTss addr rest /\ cns = None
     | ClTm latest trusting drift delay rest, HTm _ hh k _ =>
@@ -756,9 +760,9 @@ Proof.
     + cbn. destruct (snd (eh_height hd) mod e =? lenN v / 2); cbn; eauto 8.
   - (* ETH *)
     destruct et; try contradiction.
-    destruct V as (-> & Hh & Hn & Hi & Ht). destruct St as [cc G].
-    cbn. unfold eth_update. rewrite G. cbn. rewrite <- Hh, <- Hn, Hi, bytes_eqb_refl. cbn.
-    destruct (N.leb_spec (eh_time hd) (eh_time cur)); [lia|].
+    destruct V as (-> & Hh & Hn & Hi & Ht & Hrv & Hold). destruct St as [cc G].
+    cbn. unfold eth_update. rewrite G. cbn. rewrite Hrv, N.eqb_refl, andb_false_r. rewrite <- Hh, <- Hn, Hi, bytes_eqb_refl. cbn.
+    destruct (N.leb_spec (eh_time hd) (eh_time cur)); [lia|]. rewrite Hold, andb_false_r.
     destruct (eth_prune_ok t tnow s A C) as [s1 ->]. cbn.
     unfold eth_is_fork. rewrite Hh, bytes_eqb_refl. cbn. eauto 6.
   - cbn. eauto 6.
@@ -773,7 +777,7 @@ Lemma valid_update_succeeds cf st name c h signer :
   exists st', step cf st (Update name h signer true) = (0%nat, st') /\ updated c h (store_of st' name).
 Proof.
   intros F (cs & Ha & Hb) Hc Hs St Cl V.
-  destruct (check_header_valid _ _ _ _ St Cl V) as (c' & cns & s1 & E & R).
+  destruct (check_header_valid cf _ _ _ _ St Cl V) as (c' & cns & s1 & E & R).
   unfold step, exec. cbn. rewrite Ha, Hb, Hc. cbn.
   assert (Sg : (match c with ClTss addr _ => bytes_eqb addr signer | _ => true end) = true).
   { destruct c; try reflexivity. rewrite (Hs _ _ eq_refl). apply bytes_eqb_refl. }
@@ -886,7 +890,7 @@ Proof.
   intros A. unfold eth_prune. destruct (prune_target ETH trusting tnow s) as [p| |]; cbn; try discriminate.
   destruct p as [h|]; [|intro H; inversion H; subst; exact A].
   destruct (get_cons ETH h s) as [cs|]; [|discriminate].
-  destruct (sget (KRootMain (cs_root cs) (snd h)) s) as [[| | | | | | |hash n]|]; try discriminate.
+  destruct (sget (KRootMain (hash32 (cs_root cs)) (snd h)) s) as [[| | | | | | |hash n]|]; try discriminate.
   intro H; inversion H; subst. repeat apply all_cons_sdel. exact A.
 Qed.
 
@@ -897,7 +901,7 @@ Lemma keeper_update_clean cf tnow h s s' c :
 Proof.
   intros Hc (A & C & D). unfold keeper_update. rewrite Hc.
   destruct (negb (Nat.eqb (status tnow c s) 0)); [discriminate|].
-  destruct (check_header_and_update tnow c h s) as [[[c' cns] s1]| |] eqn:E; cbn; try discriminate.
+  destruct (check_header_and_update cf tnow c h s) as [[[c' cns] s1]| |] eqn:E; cbn; try discriminate.
   destruct (hdr_height cf h) as [hh|] eqn:Hh; [|discriminate].
   intro H; inversion H; subst; clear H.
   destruct c as [l t d y r | cur e v t r | cur b t r | a r];
@@ -944,9 +948,10 @@ Proof.
   - (* ETH *)
     destruct et; try discriminate. unfold eth_update in E.
     destruct (get_cons ETH (eh_height cur) s); [|discriminate].
-    destruct (negb hv); [discriminate|].
+    destruct (negb hv); [discriminate|]. destruct (f_eth_rev_check cf && _); [discriminate|].
     destruct (sget (KHIdx (eh_parent hd) (sub64 (snd (eh_height hd)) 1)) s) as [[| | | | | |ph|]|]; try discriminate.
     destruct (negb _); [discriminate|]. destruct (eh_time hd <=? eh_time ph); [discriminate|].
+    destruct (f_eth_old_header cf && _); [discriminate|].
     destruct (eth_prune t tnow s) as [s0| |] eqn:P; cbn in E; try discriminate.
     destruct (eth_is_fork cur hd); [discriminate|]. inversion E; subst; clear E.
     cbn in Hh. inversion Hh; subst; clear Hh.
@@ -974,6 +979,7 @@ Proof.
     destruct (negb (valid_name (p_name p) && p_validate p)); [discriminate|].
     unfold types_agree in E. rewrite F3 in E. cbn in E.
     destruct (ctype_eqb_spec (cs_type (p_cons p)) (type_of (p_client p))) as [T|]; [|discriminate]. cbn in E.
+    destruct (roots_agree cf p); [|discriminate]. cbn in E.
     destruct (upgrade_client cf (now st) (p_client p) (p_cons p) (store_of st (p_name p))) as [s'| |] eqn:U; cbn in E; try discriminate.
     inversion E; subst; clear E.
     intros n c. destruct (bytes_eqb_spec n (p_name p)) as [->|N].
@@ -1010,3 +1016,20 @@ Qed.
 
 Lemma clean_state_empty t : clean_state (empty_state t).
 Proof. intros n c H. discriminate. Qed.
+
+(** a successful proposal passed the ETH root check *)
+Lemma exec_roots_agree cf st o st' :
+  exec cf st o = Ok st' ->
+  match o with Create p | Upgrade p | Toggle p => roots_agree cf p = true | _ => True end.
+Proof.
+  destruct o as [p|p|p|addr chains wfb|name h signer vb|dt]; try exact (fun _ => I); unfold exec.
+  - destruct (negb _); [discriminate|]. destruct (has_client _ _); [discriminate|]. destruct (negb _); [discriminate|].
+    destruct (roots_agree cf p); [reflexivity | discriminate].
+  - destruct (negb _); [discriminate|]. destruct (negb _); [discriminate|].
+    destruct (roots_agree cf p); [reflexivity | discriminate].
+  - destruct (negb _); [discriminate|]. destruct (negb _); [discriminate|]. destruct (negb _); [discriminate|].
+    destruct (roots_agree cf p); [reflexivity | discriminate].
+Qed.
+
+Lemma roots_agree_head cf p : f_eth_root_check cf = true -> roots_agree cf p = roots_agree head_cfg p.
+Proof. intro F. unfold roots_agree. rewrite F. reflexivity. Qed.
